@@ -1376,3 +1376,118 @@ class DelegatingRepeatSpec(OpSpec):
 
 def bounded_repeat_specs():
     return [DelegatingRepeatSpec(c) for c in ("RepeatExact", "RepeatMin", "RepeatMax", "RepeatMinMax")]
+
+
+# ============================================================================ optimizer-only expressions (C02)
+SUBS = z3.Const("skip_subs", SeqStrSort)
+mo = z3.Function("min_occurrence", z3.IntSort(), z3.IntSort(), z3.IntSort())  # mo(i, pos): min over subs[:i] of the first occurrence at or after pos, -1 if none
+
+
+def find_at(sub, pos):
+    """Python's inp.find(sub, pos) for 0 <= pos <= len(inp) (z3's IndexOf is the first occurrence)"""
+    return z3.IndexOf(INP, sub, pos)
+
+
+def mo_unfold(i, pos) -> list[z3.BoolRef]:
+    f = find_at(SUBS[i], pos)
+    return [
+        mo(0, pos) == -1,
+        z3.Implies(z3.And(0 <= i, i < z3.Length(SUBS)), mo(i + 1, pos) == z3.If(f == -1, mo(i, pos), z3.If(z3.Or(mo(i, pos) == -1, f < mo(i, pos)), f, mo(i, pos)))),
+        z3.Implies(z3.And(0 <= i, i < z3.Length(SUBS), f != -1), z3.And(f >= pos, f <= z3.Length(INP))),
+    ]
+
+
+class SkipUntilSpec(TerminalSpec):
+    """SkipUntil(subs): always succeeds; pos' = the least first-occurrence index (at or after pos) over the
+    stop strings, or len(input) when none occurs; nothing else changes, no pairs, no failure recorded."""
+
+    cls = f"{T}.SkipUntil"
+
+    def mk_self(self, run):
+        lst = run.new_list("str", SUBS, fresh=False)
+        return run.heap.alloc(self.cls, {"subs": lst, "tag": None}, fresh=False)
+
+    def K(self, run, L0):  # noqa: N802, N803
+        p = lget(L0, "pos")
+        m = mo(z3.Length(SUBS), p)
+        return z3.BoolVal(True), lset(L0, pos=z3.If(m == -1, z3.Length(INP), m)), EMPTY_P
+
+    best_var = "best_index"
+
+    def mk_loops(self):
+        spec = self
+
+        def facts(run, g):
+            i = z(run.loop_idx)
+            p = lget(run.pre["L0"], "pos")
+            return mo_unfold(i, p)
+
+        def inv(run, g):
+            from pyvc.sorts import OptInt
+
+            i = z(run.loop_idx)
+            p = lget(run.pre["L0"], "pos")
+            b = run.frames[0].env[spec.best_var]
+            m = mo(i, p)
+            if b is None:
+                best = m == -1
+            elif isinstance(b, Sym) and b.k == "optint":
+                v = OptInt.ival(b.t)
+                best = z3.If(OptInt.is_none_i(b.t), m == -1, z3.And(v == m, v >= p, v <= z3.Length(INP)))
+            else:
+                v = z(b, "int")
+                best = z3.And(v == m, v >= p, v <= z3.Length(INP))
+            return [
+                ("state", spec.cur(run) == run.pre["L0"]),
+                ("snaps", spec.snaps_same(run)),
+                ("pairs", spec.pairs_now(run) == run.pre["P0"]),
+                ("best", best),
+            ]
+
+        def havoc_local(run, name, cur):
+            if name == spec.best_var:
+                return run.fresh("best", "optint")
+            return run._havoc_val(name, cur)  # noqa: SLF001
+
+        lp = Loop(inv, facts=facts, modifies=lambda run: [])
+        lp.havoc_local = havoc_local
+        return {0: lp}
+
+    def wf_hints(self, run, L0, ok, L1, prs):  # noqa: N803
+        p = lget(L0, "pos")
+        return mo_unfold(z3.Length(SUBS) - 1, p)
+
+
+rx_ok = z3.Function("rx_ok", z3.StringSort(), z3.StringSort(), z3.IntSort(), z3.BoolSort())  # (pattern id, input, pos)
+rx_end = z3.Function("rx_end", z3.StringSort(), z3.StringSort(), z3.IntSort(), z3.IntSort())
+
+
+class RegexNodeSpec(TerminalSpec):
+    """RegexExpression / OptimizedChoice: one compiled pattern (opaque - its meaning is C12's business):
+    match -> pos' = match.end(); no match -> False; neither records a failure."""
+
+    def __init__(self, cls_name: str):
+        self.cls = {"RegexExpression": "pest.grammar.expression.RegexExpression", "OptimizedChoice": f"{X}.choice.OptimizedChoice"}[cls_name]
+        self.kind = cls_name
+        super().__init__()
+
+    def mk_self(self, run):
+        pid = run.fresh("pattern_id", "str")
+        rx = RegexV(lambda inp, pos: (rx_ok(pid.t, inp, pos), rx_end(pid.t, inp, pos)))
+        run.pre_pid = pid.t
+        fields = {"pattern": rx if self.kind == "OptimizedChoice" else pid, "regex": rx, "_compiled": rx, "choices": None, "tag": None}
+        return run.heap.alloc(self.cls, fields, fresh=False)
+
+    def K(self, run, L0):  # noqa: N802, N803
+        p = lget(L0, "pos")
+        pid = run.pre_pid
+        ok = rx_ok(pid, INP, p)
+        # assumed of the engine: a match that starts at pos ends inside [pos, len]
+        run.assume(z3.Implies(ok, z3.And(rx_end(pid, INP, p) >= p, rx_end(pid, INP, p) <= z3.Length(INP))), "regex: match.end() lies in [pos, len(input)]")
+        return ok, z3.If(ok, lset(L0, pos=rx_end(pid, INP, p)), L0), EMPTY_P
+
+    def getattr(self, run: Run, base: Any, attr: str, n):
+        # OptimizedChoice.pattern is a lazily compiled property: modelled as the compiled pattern itself
+        if isinstance(base, Ref) and base == run.pre.get("me") and attr == "pattern" and self.kind == "OptimizedChoice":
+            return run.obj(base)["pattern"]
+        return TerminalSpec.getattr(self, run, base, attr, n)
